@@ -260,6 +260,8 @@ var (
 	vKeyUsed     []byte
 	// the token's exp / nbf / iat are written as non-integer numbers (1700000000.5)
 	vFractionalDates bool
+	// the token's aud claim is a list of strings (as RFC 7519 allows)
+	vAudienceIsAList bool
 )
 
 // vJWTParse models jwt.Parse by its contract: the key function is asked for the
@@ -274,9 +276,17 @@ var (
 // key function is asked; SkipClaimsValidation skips the claim checks; with UseJSONNumber a
 // numeric date that is not an integer cannot be read from the json.Number and is treated as
 // absent, i.e. an expired / not-yet-valid token with fractional dates passes the claim checks.
-func vJWTParse(p *jwt.Parser, tokenString string, keyFunc jwt.Keyfunc) (*jwt.Token, error) {
+//
+// The model sits on (*Parser).ParseWithClaims, which Parse, jwt.Parse and jwt.ParseWithClaims all
+// end in. With a typed claims struct (StandardClaims) instead of MapClaims the library decodes
+// the payload into fixed Go types: a token whose `aud` is a list or whose dates are not integers
+// does not fit and is reported as malformed although it is perfectly valid.
+func vJWTParse(p *jwt.Parser, tokenString string, claims jwt.Claims, keyFunc jwt.Keyfunc) (*jwt.Token, error) {
 	vParsedToken = tokenString
 	tok := &jwt.Token{Raw: tokenString, Method: &vMethod{vTokenAlg}}
+	if _, isMap := claims.(jwt.MapClaims); !isMap && (vFractionalDates || vAudienceIsAList) {
+		return tok, &jwt.ValidationError{Inner: errors.New("json: cannot unmarshal into typed claims"), Errors: jwt.ValidationErrorMalformed}
+	}
 	if p.ValidMethods != nil {
 		listed := false
 		for _, m := range p.ValidMethods {
@@ -341,6 +351,7 @@ func verifC06_JWT() {
 	vTokenAlg = algs[verifChoose("tokenAlgorithm", 5)]
 	vSigValid, vClaimsValid = verifBool("signatureValidUnderConfiguredSecret"), verifBool("claimsCurrentlyValid")
 	vFractionalDates = verifBool("claims.numericDatesAreNotIntegers")
+	vAudienceIsAList = verifBool("claims.audienceIsAList")
 	vHasCookie = verifBool("hasCookie")
 	vCookieValue = verifString("cookieValue", 2)
 	bearer := verifString("bearerToken", 2)
